@@ -24,6 +24,8 @@ type Config struct {
 	RepoModule    string
 	Trace         bool
 	PanicIsViolation bool
+	BudgetIsViolation bool
+	DeadlockIsViolation bool
 }
 
 type Draw struct {
@@ -742,6 +744,14 @@ func (e *Engine) RunPath(entry *ssa.Function, item WorkItem) (res *PathResult) {
 				case pathEnd:
 					res.End = p.kind
 					res.Msg = p.msg
+					if p.kind == "budget" && e.cfg.BudgetIsViolation && !e.inReplay() {
+						e.refreshModelSafe()
+						e.event(Event{Kind: "violation", Label: "nontermination", Msg: p.msg, Tape: e.mkTape("violation", "nontermination", e.model, p.msg)})
+					}
+					if p.kind == "deadlock" && e.cfg.DeadlockIsViolation && !e.inReplay() {
+						e.refreshModelSafe()
+						e.event(Event{Kind: "violation", Label: "deadlock", Msg: p.msg, Tape: e.mkTape("violation", "deadlock", e.model, p.msg)})
+					}
 				case targetPanic:
 					res.End = "panic"
 					res.Msg = p.msg
